@@ -494,6 +494,22 @@ func (ctrler *GovCtrler) Close() xerrors.XError {
 	return nil
 }
 
+// GovParamsAt returns the governance parameters as committed at `height`.
+func (ctrler *GovCtrler) GovParamsAt(height int64) (ctrlertypes.IGovHandler, xerrors.XError) {
+	ctrler.mtx.RLock()
+	defer ctrler.mtx.RUnlock()
+
+	atledger, xerr := ctrler.paramsLedger.ImmutableLedgerAt(height, 0)
+	if xerr != nil {
+		return nil, xerr
+	}
+	params, xerr := atledger.Read(ledger.ToLedgerKey(abytes.ZeroBytes(32)))
+	if xerr != nil {
+		return nil, xerr
+	}
+	return params, nil
+}
+
 func (ctrler *GovCtrler) GetGovParams() ctrlertypes.GovParams {
 	ctrler.mtx.RLock()
 	defer ctrler.mtx.RUnlock()
